@@ -575,14 +575,18 @@ theorem connectFailed_frame (w : World) (k : Nat) :
 theorem step_handler (w : World) (e : Ev) :
     (step w e).handler = match e with | .handle h => some h | _ => w.handler := by
   cases e with
-  | start => simp only [step]; split <;> (try split) <;> rfl
+  | start => simp only [step]; split <;> (try split) <;> (try split) <;> rfl
   | app r => simp only [step]; split; rfl; exact (pf_progress _).handler
-  | dialOk i => simp only [step]; split <;> rfl
-  | dialFail => simp only [step]; split <;> (try split) <;> rfl
+  | dialOk i =>
+    simp only [step]; split; rfl
+    split
+    · exact (pf_progress _).handler
+    · rfl
+  | dialFail => simp only [step]; split <;> (try split) <;> (try split) <;> rfl
   | waitElapsed => simp only [step]; split <;> rfl
   | cancelCtx =>
     simp only [step]; split; rfl
-    split <;> first | rfl | exact (pf_progress _).handler
+    split <;> (try split) <;> first | rfl | exact (pf_progress _).handler
   | connackOk sp inb =>
     dsimp only
     cases hph : w.phase with
@@ -626,7 +630,7 @@ theorem step_HInv (w : World) (e : Ev) (hi : HInv w) : HInv (step w e) := by
   | start =>
     simp only [step]; split
     · exact hi
-    · split <;> (refine hi.frame rfl rfl ?_ (LLe.refl _); intro j hj; simp at hj)
+    · split <;> (try split) <;> (refine hi.frame rfl rfl ?_ (LLe.refl _); intro j hj; simp at hj)
   | waitElapsed =>
     simp only [step]; split
     · refine hi.frame rfl rfl ?_ (LLe.refl _); intro j hj; simp at hj
@@ -638,7 +642,9 @@ theorem step_HInv (w : World) (e : Ev) (hi : HInv w) : HInv (step w e) := by
       split
       · exact hW0
       · refine hi.frame rfl rfl ?_ (LLe.refl _); intro j hj; simp at hj
-      · refine hi.frame rfl rfl ?_ (LLe.refl _); intro j hj; simp at hj
+      · split
+        · exact hi.frame rfl rfl (fun _ h => h) (LLe.refl _)
+        · refine hi.frame rfl rfl ?_ (LLe.refl _); intro j hj; simp at hj
       · refine HInv.pf ?_ (pf_progress _)
         refine hi.frame rfl rfl ?_ ?_
         · intro j hj; simp at hj
@@ -653,20 +659,29 @@ theorem step_HInv (w : World) (e : Ev) (hi : HInv w) : HInv (step w e) := by
   | dialOk i =>
     simp only [step]; split
     · exact hi
-    · constructor
-      · intro k hk
-        simp only [Option.some.injEq] at hk
-        subst hk
-        simp [getConn]
-      · intro k hk
-        simp only [reduceCtorEq, Phase.connackGate.injEq, false_or] at hk
-        subst hk; rfl
+    · split
+      · refine HInv.pf ?_ (pf_progress _)
+        constructor
+        · intro k hk
+          simp only [Option.some.injEq] at hk
+          subst hk
+          simp [getConn]
+        · intro k hk
+          simp at hk
+      · constructor
+        · intro k hk
+          simp only [Option.some.injEq] at hk
+          subst hk
+          simp [getConn]
+        · intro k hk
+          simp only [reduceCtorEq, Phase.connackGate.injEq, false_or] at hk
+          subst hk; rfl
   | dialFail =>
     simp only [step]; split
     · exact hi
     · split
       · refine hi.frame rfl rfl ?_ (LLe.refl _); intro j hj; simp at hj
-      · refine hi.frame rfl rfl ?_ (LLe.refl _); intro j hj; simp at hj
+      · split <;> (refine hi.frame rfl rfl ?_ (LLe.refl _); intro j hj; simp at hj)
   | connackOk sp inb =>
     cases hph : w.phase with
     | connackGate k =>
@@ -750,14 +765,18 @@ def handOver (w : World) : Ev → List (Nat × Nat × Nat)
 
 theorem step_handled (w : World) (e : Ev) (hi : HInv w) : (step w e).handled = w.handled ++ handOver w e := by
   cases e with
-  | start => simp only [step, handOver]; split <;> (try split) <;> simp
+  | start => simp only [step, handOver]; split <;> (try split) <;> (try split) <;> simp
   | waitElapsed => simp only [step, handOver]; split <;> simp
   | cancelCtx =>
     simp only [step, handOver]; split; simp
-    split <;> first | (rw [(pf_progress _).handled]; simp [kill, setConn]) | simp
+    split <;> (try split) <;> first | (rw [(pf_progress _).handled]; simp [kill, setConn]) | simp
   | app r => simp only [step, handOver]; split; simp; rw [(pf_progress _).handled]; simp [pushTask]
-  | dialOk i => simp only [step, handOver]; split <;> simp
-  | dialFail => simp only [step, handOver]; split <;> (try split) <;> simp
+  | dialOk i =>
+    simp only [step, handOver]; split; simp
+    split
+    · rw [(pf_progress _).handled]; simp
+    · simp
+  | dialFail => simp only [step, handOver]; split <;> (try split) <;> (try split) <;> simp
   | connackOk sp inb =>
     cases hph : w.phase with
     | connackGate k =>
